@@ -2,6 +2,7 @@ package main
 
 import (
 	"fmt"
+	"go/token"
 	"go/types"
 	"strings"
 
@@ -359,7 +360,11 @@ func (u *Unit) refInvariant(cn string, val, alloc *Term) *Term {
 
 func (u *Unit) clauseEnv(p *Path, fromIface bool, args, results []*Term, old *State) *Env {
 	vars := u.v.contractVars(u.fn, u.bc.iface, fromIface, args, results)
-	return &Env{cx: u.cx, st: p.st, old: old, vars: vars}
+	env := &Env{cx: u.cx, st: p.st, old: old, vars: vars, epochSt: u.cx.snapshotIfChanged(p.st), epochSplit: true, epochOld: u.cx.snapshotIfChanged(old)}
+	if !fromIface {
+		env.contract = u.bc.own
+	}
+	return env
 }
 
 func (u *Unit) atReturn(p *Path, results []*Term) {
@@ -533,6 +538,13 @@ func (u *Unit) invEnv(p *Path, h *ssa.BasicBlock) *Env {
 				if t, ok := p.vals[x]; ok {
 					vars["$i"] = Add(t, IntLit(1))
 				}
+			} else if x == u.counterPhi(h) {
+				// `for i := 0; ...; i++`: the counter is the number of completed iterations, like $i of a range loop
+				if t, ok := p.vals[x]; ok {
+					if _, has := vars["$i"]; !has {
+						vars["$i"] = t
+					}
+				}
 			}
 		case *ssa.Next:
 			if it := p.iters[x.Iter]; it != nil {
@@ -544,7 +556,12 @@ func (u *Unit) invEnv(p *Path, h *ssa.BasicBlock) *Env {
 			}
 		}
 	}
-	env := &Env{cx: u.cx, st: p.st, old: u.entry, vars: vars}
+	env := &Env{cx: u.cx, st: p.st, old: u.entry, vars: vars, epochSt: u.cx.snapshotIfChanged(p.st), epochSplit: true, contract: u.bc.own, prefer: map[string]bool{}}
+	for _, in := range h.Instrs {
+		if phi, ok := in.(*ssa.Phi); ok && phi.Comment != "" {
+			env.prefer[phi.Comment] = true
+		}
+	}
 	if p.loopEntry != nil {
 		env.loopEntry = p.loopEntry[u.loops[h]]
 	}
@@ -594,6 +611,9 @@ func (u *Unit) atLoopHead(p *Path, h, pred *ssa.BasicBlock, ord int, back bool) 
 		if phi, ok := in.(*ssa.Phi); ok && phi.Comment == "rangeindex" {
 			o := u.ob(fmt.Sprintf("inv%d.auto-index.%s", ord, stage), "inv", nil, "range index >= -1")
 			u.check(p, o, Ge(p.vals[phi], IntLit(-1)))
+		} else if ok && phi == u.counterPhi(h) {
+			o := u.ob(fmt.Sprintf("inv%d.auto-index.%s", ord, stage), "inv", nil, "loop counter >= 0")
+			u.check(p, o, Ge(p.vals[phi], IntLit(0)))
 		}
 	}
 	// automatic invariant: the function's frame holds at the loop head
@@ -709,6 +729,8 @@ func (u *Unit) atLoopHead(p *Path, h, pred *ssa.BasicBlock, ord int, back bool) 
 		case *ssa.Phi:
 			if x.Comment == "rangeindex" {
 				p.assume(Ge(p.vals[x], IntLit(-1)))
+			} else if x == u.counterPhi(h) {
+				p.assume(Ge(p.vals[x], IntLit(0)))
 			}
 		case *ssa.Next:
 			if it := p.iters[x.Iter]; it != nil {
@@ -794,4 +816,50 @@ func describeTerm(t *Term) string {
 		s = s[:200] + "..."
 	}
 	return strings.ReplaceAll(s, "\n", " ")
+}
+
+// counterPhi finds the counter of a loop written `for i := 0; ...; i++`: the only integer phi at the loop
+// head that is 0 on the edge entering the loop and itself plus 1 on every edge from the loop body.
+func (u *Unit) counterPhi(h *ssa.BasicBlock) *ssa.Phi {
+	var found *ssa.Phi
+	for _, in := range h.Instrs {
+		phi, ok := in.(*ssa.Phi)
+		if !ok {
+			break
+		}
+		if b, isB := phi.Type().Underlying().(*types.Basic); !isB || b.Info()&types.IsInteger == 0 || phi.Comment == "rangeindex" {
+			continue
+		}
+		good, sawInit, sawStep := true, false, false
+		for i, e := range phi.Edges {
+			pred := h.Preds[i]
+			if u.loopBody[h][pred] {
+				bo, ok := e.(*ssa.BinOp)
+				if !ok || bo.Op != token.ADD || bo.X != ssa.Value(phi) {
+					good = false
+					break
+				}
+				c, ok := bo.Y.(*ssa.Const)
+				if !ok || c.Value == nil || c.Value.ExactString() != "1" {
+					good = false
+					break
+				}
+				sawStep = true
+			} else {
+				c, ok := e.(*ssa.Const)
+				if !ok || c.Value == nil || c.Value.ExactString() != "0" {
+					good = false
+					break
+				}
+				sawInit = true
+			}
+		}
+		if good && sawInit && sawStep {
+			if found != nil {
+				return nil
+			}
+			found = phi
+		}
+	}
+	return found
 }
